@@ -182,10 +182,10 @@ def renames(prog, edges=None, funcs=None):
     while changed:
         changed = False
         for g in sorted(new - set(mapping)):
-            mapped_callers = {mapping.get(c, c) for c in callers.get(g, ())}
+            mapped_callers = {mapping.get(c, c) for c in callers.get(g, ()) if c != g}  # (a function calling itself is not a caller to compare)
             last = lambda x: x.rsplit("::", 1)[-1]  # noqa: E731
             # renamed in place (same module / impl) or moved under the same name (another module / impl)
-            cands = [f for f in sorted(vanished - set(mapping.values())) if (parent(f) == parent(g) or last(f) == last(g)) and set(recorded[f]) == mapped_callers]
+            cands = [f for f in sorted(vanished - set(mapping.values())) if (parent(f) == parent(g) or last(f) == last(g)) and set(recorded[f]) - {f} == mapped_callers]
             if len(cands) > 1 and sigs_now.get(g):
                 # several vanished functions with the same callers: the one with the same signature
                 same = [f for f in cands if sigs_then.get(f) == sigs_now[g]]
@@ -213,6 +213,20 @@ def renames(prog, edges=None, funcs=None):
             if len(cands) == 1:
                 mapping[g] = cands[0]
                 changed = True
+    # moved to another type / module under its own name while its callers moved too (a family of methods pulled out into a
+    # new struct): one vanished and one new function of that name, same result type, same number of parameters
+    left_new = sorted(new - set(mapping))
+    left_old = sorted(vanished - set(mapping.values()))
+    last = lambda x: x.rsplit("::", 1)[-1]  # noqa: E731
+    for g in left_new:
+        if g.startswith("<") or "{" in g:
+            continue
+        olds = [f for f in left_old if last(f) == last(g) and not f.startswith("<")]
+        news = [x for x in left_new if last(x) == last(g) and not x.startswith("<")]
+        if len(olds) == 1 and len(news) == 1 and sigs_now.get(g) and sigs_then.get(olds[0]):
+            a_, b_ = sigs_then[olds[0]].split("|"), sigs_now[g].split("|")
+            if a_[0] == b_[0] and a_[1] == b_[1] and len(last(g)) >= 6:
+                mapping[g] = olds[0]
     return mapping
 
 
